@@ -879,3 +879,226 @@ func checkC13CommandNamespace(c *Ctx, n int) {
 		})
 	}
 }
+
+// lastBlock: the text of the last observation line with that prefix ("HELP x", "MAN x")
+func lastBlock(lines []string, prefix string) string {
+	out := ""
+	for _, l := range lines {
+		if strings.HasPrefix(l, prefix) {
+			out, _ = unhx(l[len(prefix)-1:])
+		}
+	}
+	return out
+}
+
+// checkC16DefaultChanged: Option.Default is assigned after the parser was used (a call; a help text was written):
+// the help written after the next call shows the default declared NOW, as the man page does and as the call applies.
+func checkC16DefaultChanged(c *Ctx, n int) {
+	r := c.Rng
+	for i := 0; i < n; i++ {
+		before, after := fmt.Sprintf("80%d", r.Intn(90)+10), fmt.Sprintf("90%d", r.Intn(90)+10)
+		tag := `long:"port" description:"port to listen on"`
+		if r.Intn(3) != 0 {
+			tag += fmt.Sprintf(` default:"%s"`, before)
+		} else {
+			before = ""
+		}
+		root := &StructDesc{Fields: []FieldDesc{
+			{Name: "Verbose", Exported: true, Kind: "v", Ty: "bool", Tag: `short:"v" description:"say more"`},
+			{Name: "Port", Exported: true, Kind: "v", Ty: []string{"int", "str", "Lint"}[r.Intn(3)], Tag: tag}}}
+		cs := &Case{Name: "app", NsDelim: ".", EnvNsDelim: "_"}
+		cs.Build = []BuildOp{{Kind: "addgroup", Target: 1, Short: "Application Options", Struct: root}}
+		cs.Ops = []Op{{Kind: "parse", Args: []string{"-v"}}}
+		if r.Intn(2) == 0 {
+			cs.Ops = append(cs.Ops, Op{Kind: "help", Cols: 80})
+		}
+		cs.Ops = append(cs.Ops, Op{Kind: "build", B: &BuildOp{Kind: "setopt", Target: 1, Gi: 1, Oi: 1, Attr: "default", Vals: []string{hx(after)}}},
+			Op{Kind: "parse", Args: []string{}}, Op{Kind: "help", Cols: 80}, Op{Kind: "man"})
+		cs.Description = describeOps(cs)
+		c.RunCases([]*Case{cs}, func(cr *CaseResult) {
+			c.classifyCase(cr)
+			if cr.Real == nil || cr.Real.dead {
+				return
+			}
+			c.Class(fmt.Sprintf("c16/default-changed: declared-at-first=%v", before != ""))
+			help, man := lastBlock(cr.Impl, "HELP x"), lastBlock(cr.Impl, "MAN x")
+			for which, text := range map[string]string{"help": help, "man": man} {
+				ok := strings.Contains(text, after) && (before == "" || !strings.Contains(text, before))
+				in := map[string]interface{}{"case": cs.Description, "generator": which, "default_at_first": before, "default_now": after}
+				if !ok {
+					in["case_file"] = c.saveCase(cr)
+					in["text"] = text
+				}
+				c.Check("the-default-shown-is-the-default-declared-now", ok, "C16:default-changed", in, "see text", "default "+after+" shown, "+before+" not")
+			}
+		})
+	}
+}
+
+// checkC18HiddenChanged: Command.Hidden is assigned after the parser was used (a completion of command words, a
+// help text, the missing-command diagnostic): the next completion offers exactly the commands visible NOW.
+func checkC18HiddenChanged(c *Ctx, n int) {
+	r := c.Rng
+	for i := 0; i < n; i++ {
+		names := []string{"add", "purge", "remove"}
+		hiddenAt := r.Intn(4) // which one the declaration hides (3: none)
+		root := &StructDesc{Fields: []FieldDesc{{Name: "V", Exported: true, Kind: "v", Ty: "bool", Tag: `short:"v"`}}}
+		for j, nm := range names {
+			tag := fmt.Sprintf(`command:"%s"`, nm)
+			if j == hiddenAt {
+				tag += ` hidden:"yes"`
+			}
+			root.Fields = append(root.Fields, FieldDesc{Name: fmt.Sprintf("C%d", j), Exported: true, Kind: "s", Sub: &StructDesc{}, Tag: tag})
+		}
+		cs := &Case{Name: "app", NsDelim: ".", EnvNsDelim: "_"}
+		cs.Build = []BuildOp{{Kind: "addgroup", Target: 1, Short: "Application Options", Struct: root}}
+		switch r.Intn(3) {
+		case 0:
+			cs.Ops = append(cs.Ops, Op{Kind: "complete", Args: []string{""}})
+		case 1:
+			cs.Ops = append(cs.Ops, Op{Kind: "parse", Args: []string{"-v"}}, Op{Kind: "help", Cols: 80})
+		case 2:
+			cs.Ops = append(cs.Ops, Op{Kind: "parse", Args: []string{}})
+		}
+		toggled := r.Intn(3)
+		nowHidden := map[int]bool{hiddenAt: true}
+		nowHidden[toggled] = !nowHidden[toggled]
+		val := "0"
+		if nowHidden[toggled] {
+			val = "1"
+		}
+		cs.Ops = append(cs.Ops, Op{Kind: "build", B: &BuildOp{Kind: "setcmd", Target: 2 + toggled, Attr: "hidden", Vals: []string{val}}})
+		partial := []string{"", "p", "r"}[r.Intn(3)]
+		cs.Ops = append(cs.Ops, Op{Kind: "complete", Args: []string{partial}})
+		cs.Description = describeOps(cs)
+		c.RunCases([]*Case{cs}, func(cr *CaseResult) {
+			c.classifyCase(cr)
+			if cr.Real == nil || cr.Real.dead {
+				return
+			}
+			c.Class(fmt.Sprintf("c18/hidden-changed: hidden-now=%v", nowHidden[toggled]))
+			compL := ""
+			for _, l := range cr.Impl {
+				if strings.HasPrefix(l, "COMP") {
+					compL = l
+				}
+			}
+			ws := strings.Fields(compL)
+			var items []string
+			for j := 2; j < len(ws); j += 2 {
+				s, _ := unhx(ws[j])
+				items = append(items, s)
+			}
+			var want []string
+			for j, nm := range names {
+				if !nowHidden[j] && strings.HasPrefix(nm, partial) {
+					want = append(want, nm)
+				}
+			}
+			ok := fmt.Sprint(items) == fmt.Sprint(want) || (len(items) == 0 && len(want) == 0)
+			in := map[string]interface{}{"case": cs.Description, "partial_word": partial}
+			if !ok {
+				in["case_file"] = c.saveCase(cr)
+			}
+			c.Check("completion-offers-the-commands-visible-now", ok, "C18:hidden-changed", in, fmt.Sprintf("%q", items), fmt.Sprintf("%q", want))
+		})
+	}
+}
+
+// checkC13SectionRenamed: Group.ShortDescription is assigned after an INI file was read (every section lookup walks
+// the groups): a file read afterwards addresses the group by its description NOW; the former one denotes nothing.
+func checkC13SectionRenamed(c *Ctx, n int, prop string) {
+	r := c.Rng
+	for i := 0; i < n; i++ {
+		db := &StructDesc{Fields: []FieldDesc{{Name: "Host", Exported: true, Kind: "v", Ty: "str", Tag: `long:"host"`}}}
+		root := &StructDesc{Fields: []FieldDesc{
+			{Name: "Verbose", Exported: true, Kind: "v", Ty: "bool", Tag: `short:"v" long:"verbose"`},
+			{Name: "DB", Exported: true, Kind: "s", Sub: db, Tag: `group:"Database"`}}}
+		cs := &Case{Name: "app", NsDelim: ".", EnvNsDelim: "_"}
+		cs.Build = []BuildOp{{Kind: "addgroup", Target: 1, Short: "Application Options", Struct: root}}
+		useOld := r.Intn(3) == 0
+		section := "Storage"
+		if useOld {
+			section = "Database"
+		}
+		if r.Intn(2) == 0 {
+			section = strings.ToLower(section)
+		}
+		cs.Ops = []Op{{Kind: "iniparse", Text: "[Database]\nhost = first\n"},
+			{Kind: "build", B: &BuildOp{Kind: "setgrp", Target: 1, Gi: 2, Attr: "shortdesc", Vals: []string{hx("Storage")}}},
+			{Kind: "iniparse", Text: "[" + section + "]\nhost = second\n"}}
+		cs.Description = describeOps(cs)
+		c.RunCases([]*Case{cs}, func(cr *CaseResult) {
+			c.classifyCase(cr)
+			if cr.Real == nil || cr.Real.dead {
+				return
+			}
+			c.Class(fmt.Sprintf("%s/section-renamed: former-name=%v", strings.ToLower(prop), useOld))
+			second := nthLine(cr.Impl, "INI ", 1)
+			host := ""
+			if fr, ok := cr.Real.fields["Host"]; ok {
+				host = fr.val.String()
+			}
+			got := fmt.Sprintf("second read: %s; Host=%q", decodeLine(second), host)
+			var ok bool
+			want := "second read: ok; Host=\"second\""
+			if useOld {
+				want = "second read: ErrUnknownGroup; Host=\"first\""
+				ok = strings.HasPrefix(second, fmt.Sprintf("INI flags %d ", int(flags.ErrUnknownGroup))) && host == "first"
+			} else {
+				ok = second == "INI ok" && host == "second"
+			}
+			in := map[string]interface{}{"case": cs.Description, "group_described_now_as": "Storage", "section": section}
+			if !ok {
+				in["case_file"] = c.saveCase(cr)
+			}
+			c.Check("a-section-denotes-the-group-described-so-now", ok, prop+":section-renamed", in, got, want)
+		})
+	}
+}
+
+// checkC05EnvNamespaceChanged: EnvNamespace of an ENCLOSING group (or the delimiter) is assigned after the parser was
+// used: the option that does not occur takes the variable its key names NOW; the variable under the former key is
+// nothing to it.
+func checkC05EnvNamespaceChanged(c *Ctx, n int) {
+	r := c.Rng
+	for i := 0; i < n; i++ {
+		inner := &StructDesc{Fields: []FieldDesc{{Name: "Host", Exported: true, Kind: "v", Ty: []string{"str", "Lstr"}[r.Intn(2)], Tag: `long:"host" env:"HOST" default:"localhost"`}}}
+		outer := &StructDesc{Fields: []FieldDesc{{Name: "DB", Exported: true, Kind: "s", Sub: inner, Tag: `group:"Database" env-namespace:"DB"`}}}
+		root := &StructDesc{Fields: []FieldDesc{
+			{Name: "Verbose", Exported: true, Kind: "v", Ty: "bool", Tag: `short:"v" description:"x"`},
+			{Name: "Outer", Exported: true, Kind: "s", Sub: outer, Tag: `group:"Outer"`}}}
+		cs := &Case{Name: "app", NsDelim: ".", EnvNsDelim: "_"}
+		cs.Env = []EnvVar{{"DB_HOST", "old-key"}, {"APP_DB_HOST", "new-key"}}
+		cs.Build = []BuildOp{{Kind: "addgroup", Target: 1, Short: "Application Options", Struct: root}}
+		switch r.Intn(3) {
+		case 0:
+			cs.Ops = append(cs.Ops, Op{Kind: "parse", Args: []string{"-v"}})
+		case 1:
+			cs.Ops = append(cs.Ops, Op{Kind: "parse", Args: []string{}}, Op{Kind: "help", Cols: 80})
+		case 2:
+			cs.Ops = append(cs.Ops, Op{Kind: "man"})
+		}
+		// (Gi 2 is the group "Outer": it encloses "Database", the option's own group)
+		cs.Ops = append(cs.Ops, Op{Kind: "build", B: &BuildOp{Kind: "setgrp", Target: 1, Gi: 2, Attr: "envns", Vals: []string{hx("APP")}}},
+			Op{Kind: "parse", Args: []string{}})
+		cs.Description = describeOps(cs)
+		c.RunCases([]*Case{cs}, func(cr *CaseResult) {
+			c.classifyCase(cr)
+			if cr.Real == nil || cr.Real.dead {
+				return
+			}
+			c.Class("c05/env-namespace-changed")
+			host := ""
+			if fr, ok := cr.Real.fields["Host"]; ok {
+				host = fmt.Sprint(fr.val.Interface())
+			}
+			ok := host == "new-key" || host == "[new-key]"
+			in := map[string]interface{}{"case": cs.Description, "environment": "DB_HOST=old-key APP_DB_HOST=new-key", "env_namespace_of_the_enclosing_group_now": "APP"}
+			if !ok {
+				in["case_file"] = c.saveCase(cr)
+			}
+			c.Check("the-variable-named-by-the-namespaces-as-they-are-now-is-taken", ok, "C05:env-namespace-changed", in, host, "new-key")
+		})
+	}
+}
